@@ -87,6 +87,11 @@ def optimal_grouping(R, L, h, p):
     p = numpy.asarray(p, dtype=float)
     N = len(p)
 
+    if L == N:
+        # every layer is its own group: the only grouping there is (the search
+        # below would find no neighbouring grouping to move to)
+        return h.copy(), p.copy()
+
     # set initial best grouping to be (approx) equal splits. A split value is the
     # LAST index of a group, so k*N/L (the first index of the next group) has to
     # be moved back by one: without it N = 6, L = 3 starts from groups of 3, 2
